@@ -29,6 +29,8 @@ def opt(argv, name, default=None):
 def case_facts(c):
     f = {"case": c.id, "op": c.op[0] if c.op else "?", "backend": c.cfg.get("backend"),
          "rflags": c.cfg.get("rflags"), "seed": c.meta.get("seed")}
+    if c.meta.get("unpriv"):
+        f["unpriv"] = c.meta.get("unpriv")
     try:
         paths = [unhex(t) for t in c.op[1:] if t.startswith("x")]
     except Exception:
@@ -348,6 +350,8 @@ def check_C01(v, tier, seed):
     # generated tree, against the live kernel's raw openat2 answer
     spec = {"ok": 0, "skip": 0, "DIFF": 0}
     for r in runs:
+        if r.name.endswith("-unpriv"):
+            continue    # World has no permission bits: the specification is validated on the privileged runs
         by_id = {c.id: c for c in r.cases}
         for cid, (verdict, line) in r.extra.get("spec", {}).items():
             spec[verdict] = spec.get(verdict, 0) + 1
@@ -673,7 +677,8 @@ def check_C13(v, tier, seed):
     cov["tie_mismatches"] = broken
     cov["effect_verdicts"] = effect_stats(runs)
     cov.update(race_suite(v, "C13", "remove_all", tier, seed))
-    strace_tie_step(v, "C13", [["root", "--ops", "remove_all", "--seed", str(seed + 53), "--n", str(sizes(tier, 150, 2000))]], cov)
+    strace_tie_step(v, "C13", [["root", "--ops", "remove_all", "--seed", str(seed + 53), "--n", str(sizes(tier, 150, 2000))],
+                               ["root", "--ops", "remove_all", "--seed", str(seed + 59), "--n", str(sizes(tier, 100, 1000)), "--unpriv"]], cov)
     return cov
 
 
@@ -706,7 +711,8 @@ def check_C03(v, tier, seed):
     cov = coverage_of(runs)
     cov["tie_mismatches"] = broken
     cov["calls_checked_against_Disc"] = ncalls
-    strace_tie_step(v, "C03", [["root", "--ops", "mutating", "--seed", str(seed + 31), "--n", str(sizes(tier, 150, 2000))]], cov)
+    strace_tie_step(v, "C03", [["root", "--ops", "mutating", "--seed", str(seed + 31), "--n", str(sizes(tier, 150, 2000))],
+                               ["root", "--ops", "mutating", "--seed", str(seed + 61), "--n", str(sizes(tier, 100, 1000)), "--unpriv"]], cov)
     return cov
 
 
@@ -770,6 +776,7 @@ def check_C05(v, tier, seed):
     cov["follow_opens_seen"] = follow
     cov["handle_constructors"] = ctor
     strace_tie_step(v, "C05", [["root", "--ops", "all", "--seed", str(seed + 37), "--n", str(sizes(tier, 200, 3000))],
+                               ["root", "--ops", "all", "--seed", str(seed + 67), "--n", str(sizes(tier, 120, 1500)), "--unpriv"],
                                ["proc-live", "--seed", str(seed + 41), "--n", str(sizes(tier, 60, 600))],
                                ["reopen", "--seed", str(seed + 43)]], cov)
     return cov
